@@ -241,6 +241,7 @@ class World:
         self.rank = int(struct.get('rank', 2))
         self.seed = struct.get('seed', 0)
         self.injected = None
+        self.sym_budget = 2
         self._pool = {}
         self.all_legs = []
         from tenpy.tools import optimization
@@ -1134,7 +1135,8 @@ def _sorted_rows(ctx, rows):
 # ---------------------------------------------------------------- slicing / indexing
 def _sym_index(W, name, n, oob=True, neg=True):
     """index with a bounded symbolic value; out-of-range values included when oob (IndexError documented)"""
-    if W.tier == 'A' or n <= 3:
+    if W.tier == 'A' or (n <= 3 and W.sym_budget > 0):
+        W.sym_budget -= 1  # Tier B: at most two symbolic indices per scenario, further ones are drawn with the seed
         return W.ctx.int(W.ns + name, (-n - 1 if oob else -n) if neg else 0, n if oob else n - 1)
     rng = W.rng('idx:' + name)
     return rng.randrange(-n, n)
